@@ -46,6 +46,11 @@ func (env *SpecEnv) ghostCall(name string, x *ast.CallExpr) (Val, bool) {
 			k, _ = env.eval(x.Args[1]).C[0].Int64()
 		}
 		return intVal(Select(Select(vc.heapIn(env.st, "$TraceArgs", SMem), i), IntK(100+k))), true
+	case "evresarr", "evreslen", "evresoff":
+		i := env.eval(x.Args[0]).C[0]
+		k, _ := env.eval(x.Args[1]).C[0].Int64()
+		base := map[string]int64{"evresarr": 500, "evreslen": 600, "evresoff": 700}[name]
+		return intVal(Select(Select(vc.heapIn(env.st, "$TraceArgs", SMem), i), IntK(base+k))), true
 	case "evarr", "evlen":
 		// evarr(q, i) / evlen(q, i): backing array id / length of the i-th (slice or string) argument of the call at position q
 		i := env.eval(x.Args[0]).C[0]
@@ -801,6 +806,24 @@ func (vc *VC) applyContract(x ast.Node, con *Contract, full string, sig *types.S
 			}
 			evArgs = append(evArgs, nilFlag)
 		}
+		// slots 500+k / 600+k / 700+k: backing array, length and offset of the k-th result when it is a slice or string
+		defer func() {
+			n := vc.heap(st, "$TraceLen", SInt)
+			pos := Sub(n, One)
+			ta := vc.heap(st, "$TraceArgs", SMem)
+			row := Select(ta, pos)
+			ch := false
+			for i := 0; i < sig.Results().Len(); i++ {
+				rv := post[rnames[i]]
+				if rv.T != nil && (kindOf(rv.T) == KSlice || kindOf(rv.T) == KString) {
+					row = Store(Store(Store(row, IntK(int64(500+i)), rv.C[0]), IntK(int64(600+i)), rv.Len()), IntK(int64(700+i)), rv.C[1])
+					ch = true
+				}
+			}
+			if ch {
+				st.heaps["$TraceArgs"] = Store(ta, pos, row)
+			}
+		}()
 		vc.emitEventSparse(st, "Call:"+full, evArgs)
 	}
 	envPost := &SpecEnv{vc: vc, st: st, old: pre, names: post, pkg: calleePkg, where: "ensures of " + full}
@@ -1227,7 +1250,7 @@ func mentionsTrace(e ast.Expr) bool {
 		if c, ok := n.(*ast.CallExpr); ok {
 			if id, ok := c.Fun.(*ast.Ident); ok {
 				switch id.Name {
-				case "tracelen", "ev", "evarg", "evres", "evarr", "evlen", "evresnil":
+				case "tracelen", "ev", "evarg", "evres", "evarr", "evlen", "evresnil", "evresarr", "evreslen", "evresoff":
 					found = true
 				}
 			}
